@@ -32,6 +32,7 @@ type Sched struct {
 	Seed    uint64 `json:"seed"`              // feeds the scheduler's private PRNG
 	Stick   int    `json:"stick,omitempty"`   // sticky: percent chance to continue the current task
 	Changes []int  `json:"changes,omitempty"` // pct: decision numbers at which the running task is demoted
+	Points  []int  `json:"points,omitempty"`  // preempt: the running task is preempted at its n-th interesting seam (counted over the run)
 }
 
 // Options configure one run.
@@ -105,6 +106,8 @@ type Sim struct {
 	hash    uint64
 	start   time.Time
 	changes map[int]bool
+	points  map[int]bool
+	icount  int
 	// OnStep, if set, is called by the scheduler after each decision was made
 	// and before the task is released (all tasks are blocked at that moment).
 	OnStep func(n int, t *Task)
@@ -165,6 +168,10 @@ func Run(t *testing.T, opts Options, root func(s *Sim)) (rep *Report) {
 	}
 	for _, c := range opts.Sched.Changes {
 		s.changes[c] = true
+	}
+	s.points = map[int]bool{}
+	for _, c := range opts.Sched.Points {
+		s.points[c] = true
 	}
 	if !cur.CompareAndSwap(nil, s) {
 		panic("simrt: nested or concurrent simulations")
@@ -512,6 +519,35 @@ func (s *Sim) pick(cands []*Task) *Task {
 			}
 		}
 		return cands[s.rng.next()%uint64(len(cands))]
+	case "preempt":
+		// Non-preemptive (the running task continues while it can) except at the
+		// chosen interesting seams of the running task, where another task takes over.
+		var cur *Task
+		for _, t := range cands {
+			if t == s.last {
+				cur = t
+			}
+		}
+		if cur != nil {
+			preempt := false
+			if Interesting(cur.site) {
+				if s.points[s.icount] {
+					preempt = true
+				}
+				s.icount++
+			}
+			if !preempt || len(cands) == 1 {
+				return cur
+			}
+			var others []*Task
+			for _, t := range cands {
+				if t != cur {
+					others = append(others, t)
+				}
+			}
+			return others[s.rng.next()%uint64(len(others))]
+		}
+		return cands[s.rng.next()%uint64(len(cands))]
 	case "pct":
 		if s.changes[s.steps] && s.last != nil {
 			s.lowPrio--
@@ -527,6 +563,18 @@ func (s *Sim) pick(cands []*Task) *Task {
 	default: // random
 		return cands[s.rng.next()%uint64(len(cands))]
 	}
+}
+
+// Interesting reports whether a seam is one where preemption is likely to
+// matter: everything except reads, stats and task starts (those are still
+// interleaved freely by the random, sticky and pct policies).
+func Interesting(site string) bool {
+	for _, p := range []string{"read", "stat", "fstat", "start", "readdir", "chtimes", "f.", "join"} {
+		if strings.HasPrefix(site, p) {
+			return false
+		}
+	}
+	return true
 }
 
 // HashStrings is a helper for harnesses that need a stable 64-bit digest.
